@@ -380,7 +380,7 @@ impl Runner {
             _ => ("", 0),
         };
         let mut cmd = Command::new("timeout");
-        cmd.arg("-k").arg("5").arg("120").arg(&self.bin).args(&args);
+        cmd.arg("-k").arg("5").arg("120").arg("prlimit").arg("--as=4294967296").arg(&self.bin).args(&args);
         cmd.current_dir(&cwd)
             .env_clear()
             .env("PATH", &self.path_env)
